@@ -40,6 +40,7 @@ func runC01(r *engine.Run) {
 	r.Rule("DOM-childcount", "a branch is dissolved only under the child count that justifies it: liftOnlyChild is called where GetNumChildren() of the position tested equal to 1 plus the number of children cleared on the copy handed to it; the branch is removed, or turned into a leaf carrying its value, only where the count tested 1")
 	r.Rule("AGREE-setters", "see C14: the node constructors and setters store every parameter they are given (the walks hand over the right arguments; a constructor that drops one builds another node)")
 	r.Rule("DOM-valueat", "in insertAtNode a value is stored on a newly built branch only where the key it belongs to ends there: the payload where matching prefix == path tested true, the split leaf's value where matching prefix == leaf path tested true or the leaf's path is empty")
+	r.Rule("WHO-tombstones", "see C03: no lookup of the layered store consults its delete tombstones (a lookup that answered from them would hide a node the level, or the level below, still holds)")
 	r.NotDec = append(r.NotDec, "that lookups return the last stored value for every history (path arithmetic, slicing, which child is lifted)", "hex validation of Insert/Delete paths (outside the property's quantifier)")
 	exhU(r)
 	domSize(r)
@@ -62,6 +63,7 @@ func runC01(r *engine.Run) {
 	agreeMergePath(r, "AGREE-mergepath")
 	domChildCount(r, "DOM-childcount")
 	agreeSetters(r, "AGREE-setters")
+	whoTombstones(r, "WHO-tombstones")
 }
 
 var nodeKinds = []string{"ExtensionNode", "FullNode", "LeafNode"}
